@@ -45,6 +45,9 @@ def selftest_trace(path, mode):
                 break
     with open(path, "w") as fh:
         json.dump(data, fh)
+    if os.environ.get("VERIF_SELFTEST_LOG"):
+        with open(os.environ["VERIF_SELFTEST_LOG"], "a") as fh:
+            fh.write("%s %s\n" % (mode, path))
 
 
 class MachineryError(Exception):
